@@ -21,12 +21,21 @@ import (
 //	    length of the indexed value: a dominating len test, the group count of the constant
 //	    regular expression that produced a submatch slice, or the guarantee of strings.SplitN.
 func (c *Ctx) c03Index(m *smtpModel) {
+	c.parserIndex("C03/PANIC/index", smtpRel, m.root, "SMTP", 1)
+}
+
+// parserIndex is the rule for one server package (rule id, package, session root).
+func (c *Ctx) parserIndex(rule, rel string, root *ssa.Function, label string, floor int) {
 	r, p := c.R, c.P
-	r.Rule("C03/PANIC/index", "pkg/server/smtp: (a) a strings/bytes Index* result used as an index or slice bound is dominated by a test excluding -1; (b) every constant index or slice bound is within a length established by a dominating len test, by the group count of the constant regexp that produced the submatch, or by strings.SplitN/Fields guarantees")
+	r.Rule(rule, rel+": (a) a strings/bytes Index* result used as an index or slice bound is dominated by a test excluding -1; (b) every constant index or slice bound is within a length established by a dominating len test, by the group count of the constant regexp that produced the submatch, or by strings.SplitN/Fields guarantees")
 	var fns []*ssa.Function
-	for fn := range p.SyncReach(m.root) {
-		if eng.FuncPkgPath(fn) == eng.Mod+"/"+smtpRel {
-			fns = append(fns, fn)
+	if root == nil {
+		fns = pkgFuncs(p, rel) // a package whose functions call each other through function values
+	} else {
+		for fn := range p.SyncReach(root) {
+			if eng.FuncPkgPath(fn) == eng.Mod+"/"+rel {
+				fns = append(fns, fn)
+			}
 		}
 	}
 	sortFuncs(fns)
@@ -70,20 +79,65 @@ func (c *Ctx) c03Index(m *smtpModel) {
 				bv = eng.StripConv(bv)
 				// (a) search results, possibly through a phi
 				for _, src := range indexResultSources(bv, in.Block()) {
+					if c.idxOnlyLenMinus {
+						break
+					}
 					nIdx++
 					cons := siteCons(p, in, ord, "index-of-result")
 					if nonNegativeAt(src.call, src.at, src.to) {
-						r.Ok("C03/PANIC/index", cons, p.InstrPos(in), "search result proven != -1 before use")
+						r.Ok(rule, cons, p.InstrPos(in), "search result proven != -1 before use")
 					} else {
-						r.Bad("C03/PANIC/index", cons, p.InstrPos(in), "the result of %s (at %s) is used as an index or slice bound although it can be -1 here: a line without the searched byte panics the session goroutine, and with no recover the server process", eng.CalleeName(src.call.Common()), p.InstrPos(src.call))
+						r.Bad(rule, cons, p.InstrPos(in), "the result of %s (at %s) is used as an index or slice bound although it can be -1 here: a line without the searched byte panics the session goroutine, and with no recover the server process", eng.CalleeName(src.call.Common()), p.InstrPos(src.call))
 					}
+				}
+				// (c) len(x) - k as an index into x: needs len(x) >= k on the way
+				if sub, isSub := bv.(*ssa.BinOp); isSub && sub.Op == token.SUB {
+					if kk, isK := eng.ConstInt(sub.Y); isK && kk > 0 {
+						if lx := eng.LenOf(eng.StripConv(sub.X)); lx != nil && lx == base {
+							if _, isSl := in.(*ssa.Slice); !isSl {
+								nConst++
+								cons := siteCons(p, in, ord, fmt.Sprintf("len-minus:%d", kk))
+								okLen := false
+								for _, b := range in.Parent().Blocks {
+									for e := 0; e < len(b.Succs) && len(b.Succs) == 2; e++ {
+										rel, okR := eng.EdgeRel(b, e)
+										if !okR || !eng.EdgeDominates(b, e, in.Block()) {
+											continue
+										}
+										if l2 := eng.LenOf(eng.StripConv(rel.Y)); l2 != nil && l2 == base {
+											rel = rel.Swap()
+										}
+										if l2 := eng.LenOf(eng.StripConv(rel.X)); l2 == nil || l2 != base {
+											continue
+										}
+										c2, isC2 := eng.ConstInt(rel.Y)
+										if !isC2 {
+											continue
+										}
+										switch {
+										case rel.Op == token.NEQ && c2 == 0 && kk == 1, rel.Op == token.GTR && c2+1 >= kk, rel.Op == token.GEQ && c2 >= kk:
+											okLen = true
+										}
+									}
+								}
+								if okLen {
+									r.Ok(rule, cons, p.InstrPos(in), "dominated by a test that the length is at least %d", kk)
+								} else {
+									r.Bad(rule, cons, p.InstrPos(in), "element len-%d is taken without a dominating test that the value has that many elements: on an empty one the index is -1 and the goroutine panics", kk)
+								}
+							}
+						}
+					}
+				}
+				if c.idxOnlyLenMinus {
+					continue
 				}
 				// (b) constant bounds
 				k, isC := eng.ConstInt(bv)
-				if !isC || k == 0 {
+				_, isSliceOp := in.(*ssa.Slice)
+				if !isC || k < 0 || (k == 0 && isSliceOp) {
 					continue
 				}
-				_, isSliceOp := in.(*ssa.Slice)
 				need := k + 1 // index k needs len > k
 				if isSliceOp {
 					need = k // bound k needs len >= k
@@ -91,15 +145,15 @@ func (c *Ctx) c03Index(m *smtpModel) {
 				nConst++
 				cons := siteCons(p, in, ord, fmt.Sprintf("const-bound:%d", k))
 				if why, ok := c.lengthAtLeast(base, need, in.Block(), 0); ok {
-					r.Ok("C03/PANIC/index", cons, p.InstrPos(in), "%s", why)
+					r.Ok(rule, cons, p.InstrPos(in), "%s", why)
 				} else {
-					r.Bad("C03/PANIC/index", cons, p.InstrPos(in), "constant bound %d is not covered by any established length of the indexed value (%s): a shorter input panics the session", k, why)
+					r.Bad(rule, cons, p.InstrPos(in), "constant bound %d is not covered by any established length of the indexed value (%s): a shorter input panics the session", k, why)
 				}
 			}
 		})
 	}
-	r.Count("C03/PANIC/index: uses of search results as bounds", nIdx)
-	r.Floor("C03/PANIC/index", "constant index/slice bounds in the SMTP parser", nConst, 1)
+	r.Count(rule+": uses of search results as bounds", nIdx)
+	r.Floor(rule, "constant index/slice bounds in the "+label+" parser", nConst, floor)
 }
 
 type idxSrc struct {
@@ -202,7 +256,7 @@ func (c *Ctx) lengthAtLeast(base ssa.Value, need int64, at *ssa.BasicBlock, dept
 				continue
 			}
 			switch {
-			case rel.Op == token.EQL && kk >= need, rel.Op == token.GEQ && kk >= need, rel.Op == token.GTR && kk+1 >= need:
+			case rel.Op == token.EQL && kk >= need, rel.Op == token.GEQ && kk >= need, rel.Op == token.GTR && kk+1 >= need, rel.Op == token.NEQ && kk == 0 && need <= 1:
 				return fmt.Sprintf("dominated by len %s %d", rel.Op, kk), true
 			}
 		}
